@@ -25,6 +25,7 @@ type FnCase struct {
 	ErrRes  bool   `json:"err_result,omitempty"` // exec returns (NewErrorResult(err), nil) — Result style only
 	Retries int    `json:"retries,omitempty"`    // > 0: WithMaxRetries(Retries) is configured (exec never returns a Go error here, so it must run once)
 	FB      bool   `json:"fb,omitempty"`         // a fallback function is installed (must not be invoked)
+	FBResult bool `json:"fb_result,omitempty"` // exec fails with a Go error on every attempt; the fallback hands back flyt.NewResult(e): post receives e, not a Result inside a Result
 	CancelInExec bool `json:"cancel_in_exec,omitempty"` // the run's context is cancelled inside the exec function, which still returns normally: post receives exactly what exec returned
 	Conc    int    `json:"conc,omitempty"`       // a batch concurrency (and error mode) configured on the plain function node: must change nothing
 }
@@ -80,10 +81,16 @@ func runFnCase(cs *FnCase) (fs []finding) {
 	}
 	execAny := func(ctx context.Context, v any) (any, error) {
 		checkExecArg(v, false)
+		if cs.FBResult {
+			return nil, errors.New("exec fails; the fallback supplies the result")
+		}
 		return e, nil
 	}
 	execRes := func(ctx context.Context, r flyt.Result) (flyt.Result, error) {
 		checkExecArg(r.Value(), r.IsError())
+		if cs.FBResult {
+			return flyt.Result{}, errors.New("exec fails; the fallback supplies the result")
+		}
 		if cs.ErrRes {
 			return flyt.NewErrorResult(errFn), nil
 		}
@@ -139,9 +146,18 @@ func runFnCase(cs *FnCase) (fs []finding) {
 		o.mu.Lock()
 		o.fbCalls++
 		o.mu.Unlock()
+		if cs.FBResult {
+			return flyt.NewResult(e), nil // Result style, like an exec function would
+		}
 		return "fallback-value", nil
 	}
 	finish := func(wantExec int) {
+		if cs.FBResult {
+			if o.fbCalls != wantExec {
+				add("fallback-count:"+cs.Context, "fallback ran %d times, want %d", o.fbCalls, wantExec)
+			}
+			return
+		}
 		if o.execCalls != wantExec {
 			add("exec-repeated:"+cs.Context, "exec function ran %d times, want %d: it returned a nil error every time (retries configured: %d, returned an error Result: %v) [%s, %s]", o.execCalls, wantExec, cs.Retries, cs.ErrRes, style, cs.Build)
 		}
@@ -370,6 +386,9 @@ func runC17(c *Cfg) {
 					}
 					for p := 0; p < nz; p++ {
 						cases = append(cases, &FnCase{Family: "grid", PrepR: st&1 != 0, ExecR: st&2 != 0, PostR: st&4 != 0, Build: build, Context: ctx, P: p, E: (p*7 + 3) % nz, ErrRes: errRes})
+						if p%9 == 4 && !errRes && ctx != "batch" { // the fallback supplies a Result-style outcome
+							cases = append(cases, &FnCase{Family: "grid-fallback-result", PrepR: st&1 != 0, ExecR: st&2 != 0, PostR: st&4 != 0, Build: build, Context: ctx, P: p, E: (p*7 + 3) % nz, FB: true, FBResult: true, Retries: 2 * (p % 2)})
+						}
 						if p%7 == 2 && ctx != "batch" { // the context is cancelled inside exec, exec returns normally
 							cases = append(cases, &FnCase{Family: "grid-cancel-in-exec", PrepR: st&1 != 0, ExecR: st&2 != 0, PostR: st&4 != 0, Build: build, Context: ctx, P: p, E: (p*7 + 3) % nz, ErrRes: errRes, CancelInExec: true})
 						}
@@ -397,7 +416,7 @@ func runC17(c *Cfg) {
 		for _, f := range fs {
 			r.Violate("C17", "C17:"+f.key, f.detail, cs)
 		}
-		r.Nontrivial(fmt.Sprintf("%v%v%v %s %s %d %v %d %v", cs.PrepR, cs.ExecR, cs.PostR, cs.Build, cs.Context, cs.P, cs.ErrRes, cs.Retries, cs.FB) + fmt.Sprint(cs.Conc, cs.CancelInExec))
+		r.Nontrivial(fmt.Sprintf("%v%v%v %s %s %d %v %d %v", cs.PrepR, cs.ExecR, cs.PostR, cs.Build, cs.Context, cs.P, cs.ErrRes, cs.Retries, cs.FB) + fmt.Sprint(cs.Conc, cs.CancelInExec, cs.FBResult))
 		if cs.ErrRes && cs.P == 0 && r.SampleWanted("grid") {
 			r.Sample("grid", cs)
 		}
